@@ -866,13 +866,13 @@ def check(run, replay):
     run.samples = [show({k: v for k, v in c.items() if k != "expect"}) for c in cases if c["kind"] in ("line", "stream", "namespace")][5:9]
     run.cov["not_covered"] = [
         "ob-raw-dump consolidation step parse_ob_raw_feature_information (pandas read_csv/to_csv re-rendering of the dumps into raw_dump.tsv)",
-        "csv fields longer than csv.field_size_limit() = 131072 characters (csv.reader raises Error; outside the model)",
         "task_instance_ranking's use of generic_line_parser; subsampling != 1 (C08)",
         "the rows left in the buffer after the last line are observed only when more than 2**10 remain (thorough tier)",
     ]
     run.assumptions += [
         "cells contain no line break (the pipeline reads physical lines in universal-newline text mode) and no lone surrogates",
-        "csv fields are at most csv.field_size_limit() = 131072 characters long",
+        "csv round-trip theorems carry the hypothesis 'every cell <= csv.field_size_limit() = 131072 characters' (the limit is in the model; "
+        "beyond it reader and model raise csv.Error, which the streaming loop does not catch - observed, recorded)",
         "one-character delimiter for the tab-separated parser",
         "files are written and read under PYTHONUTF8=1 (parse_namespace / parse_csv_raw open files with the locale's encoding)",
     ]
